@@ -11,7 +11,7 @@ def import_eon_with_poisoned_rng_constructors():
     """A generator object created at import time of an EoN module (e.g. a module-level numpy default_rng() or random.Random())
     would escape the run-time closed world; while EoN is imported, the constructors return objects whose every use raises."""
     import importlib
-    for m in ('networkx', 'numpy', 'scipy.integrate', 'scipy.ndimage', 'scipy.special', 'matplotlib.pyplot', 'matplotlib.animation'):
+    for m in ('networkx', 'numpy', 'scipy.integrate', 'scipy.ndimage', 'scipy.special', 'scipy.stats', 'scipy.linalg', 'scipy.sparse', 'matplotlib.pyplot', 'matplotlib.animation'):
         try:
             importlib.import_module(m)
         except Exception:
@@ -28,8 +28,18 @@ def import_eon_with_poisoned_rng_constructors():
             raise UnmodelledRandomness('%s (.%s)' % (object.__getattribute__(self, '_what'), name))
     saved = [(_np.random, 'default_rng', _np.random.default_rng), (_np.random, 'RandomState', _np.random.RandomState),
              (_np.random, 'Generator', _np.random.Generator), (_r, 'Random', _r.Random), (_r, 'SystemRandom', _r.SystemRandom)]
-    for obj, attr, _ in saved:
-        setattr(obj, attr, PoisonRNG)
+
+    def guarded(real):
+        # only generators constructed BY EoN's own module-level code are poisoned: a library that EoN imports for the first time
+        # (scipy.stats, ...) may create its private generator as usual
+        def make(*a, **k):
+            caller = sys._getframe(1).f_globals.get('__name__', '')
+            if caller == 'EoN' or caller.startswith('EoN.'):
+                return PoisonRNG()
+            return real(*a, **k)
+        return make
+    for obj, attr, real in saved:
+        setattr(obj, attr, guarded(real))
     try:
         import EoN      # noqa
     finally:
